@@ -11,7 +11,7 @@ RULE = ("random sessions of 1-6 bufferevents (TCP/AF_UNIX connect ok/refused/inj
         "where read conditions observed at the read syscalls of several deferred bufferevents must be delivered in that order; "
         "non-trivial = at least one user callback ran; distinct = hash of the script")
 STEPS = [
-    dict(flavor="asan", harness="h_bev2", args=["--mode", "lifecycle"], cases=dict(quick=1500, thorough=100000),
+    dict(flavor="asan", harness="h_bev2", args=["--mode", "lifecycle"], cases=dict(quick=6000, thorough=100000),
          timeout=dict(quick=600, thorough=3000)),
 ]
 REG = dict(
